@@ -25,6 +25,11 @@ def run(chk, program, tier):
                  ('FILTER-NORM', 'LOWER probe against lower-cased lists'), ('FILTER-TYPE', 'element types of the lists; probes of a type that cannot occur'),
                  ('FILTER-PRE', 'numeric decision before reassembly'), ('FILTER-PURE', 'no filter-dependent write into the message')):
         chk.rule(r, t)
+    chk.rule('RA-DONE', 'the reassembly record is removed on completion whether or not the message passes the id filters (C04)')
+    from .. import rules_reasm as RR
+    RR.decide(chk, program, tier, ['RA-DONE'])
+    chk.rule('FILTER-HIST', 'the verdict on a message depends on the configuration and on that message only, not on the messages decided before it')
+    F.filter_history(chk, program)
     res = F.filter_table(chk, program, max_entries=3 if tier == 'thorough' else 2)
     if res is None:
         return
